@@ -928,12 +928,23 @@ def body_rescale(case, ctx):
     KC = np.broadcast_to(np.array(case["iso_pt"], dtype=float), KA.shape)
     sepc = np.sqrt(np.sum((KA - KC) ** 2, axis=-1))
     angs = []
+    again = []
     for (PA, PB) in ((PA0, PB0), (PA1, PB1)):
         Af, Bf = mk(PA, PB)
         t_ab = Af.unit_tangent_towards(Bf)
         Af2 = hyperbolic.Point(PA.copy())
         t_ac = Af2.unit_tangent_towards(third)
         a1 = np.array(t_ab.angle(t_ac), dtype=float)
+        # the same tangent vectors, asked again after they have been used to walk along
+        # their geodesics (as one does to mark a point on a side): same direction, same angle
+        # (only where both directions exist: a basepoint equal to the target has none)
+        if np.all(sepc > 0.02) and np.all(sep > 0.02):
+            w_first = np.array(t_ab.point_along(0.5).coords("klein"))
+            t_ac.point_along(0.25)
+            a1_again = np.array(t_ab.angle(t_ac), dtype=float)
+            w_again = np.array(t_ab.normalized().point_along(0.5).coords("klein"))
+            again.append((a1_again - a1, w_again - w_first))
+            ctx.label("tangents-asked-again")
         raw1 = hyperbolic.TangentVector(hyperbolic.Point(PA.copy()),
                                         np.concatenate([0.3 * one, KB - KA], axis=-1))
         raw2 = hyperbolic.TangentVector(hyperbolic.Point(PA.copy()),
@@ -948,6 +959,11 @@ def body_rescale(case, ctx):
         # (near 0 and pi the arccos amplifies rounding like a square root)
         ctx.small(nm + " unchanged", d_ang / np.sqrt(atol_ang), 1.0, got=angs[1][j],
                   ref=angs[0][j])
+    for (da, dw) in again:
+        ctx.small("angle between two tangent vectors asked again after point_along",
+                  np.where(okc, da, 0.0) / np.sqrt(atol_ang), 1.0)
+        ctx.small("normalized().point_along after point_along reaches the same point",
+                  dw / (1e-8 * hs * 2), 1.0)
     # constructed isometries as projective maps (determined part)
     O1 = A1.origin_to(force_oriented=case["force"])
     origin = hyperbolic.Point.get_origin(n, shape)
